@@ -139,7 +139,11 @@ func deepEq(w, g reflect.Value, path string) (bool, string) {
 		}
 	case reflect.Struct:
 		for i := 0; i < w.NumField(); i++ {
-			// unexported fields are compared too (readable through reflection)
+			// unexported fields are not part of the value as far as the serializer is
+			// concerned (eino's own checkpoint types rely on them being skipped)
+			if w.Type().Field(i).PkgPath != "" && !twinMode {
+				continue
+			}
 			if ok, why := deepEq(w.Field(i), g.Field(i), path+"."+w.Type().Field(i).Name); !ok {
 				return false, why
 			}
@@ -828,13 +832,19 @@ func errShapeClass(v reflect.Value) string {
 			return "nil-ptr-to-container"
 		}
 		_ = d
-	case reflect.Slice:
+	case reflect.Slice, reflect.Map:
+		// refused because of its type (an empty value of the type is refused too)?
 		if isContainer(stripped(t.Elem())) {
-			return "container-of-containers"
-		}
-	case reflect.Map:
-		if isContainer(stripped(t.Elem())) {
-			return "container-of-containers"
+			var empty reflect.Value
+			if v.Kind() == reflect.Slice {
+				empty = reflect.MakeSlice(t, 0, 0)
+			} else {
+				empty = reflect.MakeMap(t)
+			}
+			x := empty.Interface()
+			if r := roundtrip(x, x); r.class == clsErrInside {
+				return "container-of-containers"
+			}
 		}
 	}
 	return shapeClass(v)
